@@ -118,11 +118,15 @@ bool op_invert() {
         std::string key = okey(inplace ? "invertInPlace" : "invert", *a);
         cover(inplace ? "invertInPlace" : "invert", *a);
         if (inplace) { destroyDependents(*a); }
+        bool cant = false;
         withT(a->t, [&](auto tt) {
             constexpr int T = decltype(tt)::value;
-            if (inplace) asBase<T>(*a).invertInPlace();
-            else { auto res = asBase<T>(*a).invert(); finishResult(key, res, n, n, 1, inv, tol, true); }
+            try {
+                if (inplace) asBase<T>(*a).invertInPlace();
+                else { auto res = asBase<T>(*a).invert(); finishResult(key, res, n, n, 1, inv, tol, true); }
+            } catch (const SimTK::Exception::Cant&) { cant = true; }   // reported refusal (1-d storage behind a Matrix handle): an outcome, not a value error
         });
+        if (cant) { c.obs("invert-refused-Exception::Cant"); hist.back() += "  => Exception::Cant"; compareAll(key, a); return true; }
         if (inplace) checkTarget("arith:" + key, *a, inv, tol);
         compareAll(key, a);
         return true;
@@ -150,7 +154,11 @@ void runSequence(int nOpsWanted) {
                 try { done = (this->*(pw->f))(); }
                 catch (const SeqAbort&) { throw; }
                 catch (const std::exception& ex) {
-                    fail("exception:" + vh::normMsg(ex.what()).substr(0, 120), vh::Json::obj().set("what", vh::firstLine(ex.what(), 500)).set("phase", c.phase));
+                    std::string msg = ex.what();
+                    // Vector/RowVector handle re-interpreting an n x 1 / 1 x n matrix whose storage is 2-d: one-index access refused
+                    if (msg.find("One-index") != std::string::npos)
+                        fail("exception:one-index-access-on-vector-handle-with-2d-storage", vh::Json::obj().set("what", vh::firstLine(msg, 500)).set("phase", c.phase));
+                    fail("exception:" + vh::normMsg(msg).substr(0, 120), vh::Json::obj().set("what", vh::firstLine(msg, 500)).set("phase", c.phase));
                 }
             }
             ++nOps;
